@@ -1,4 +1,5 @@
 import QV.Proofs.Arith
+import QV.Proofs.Mul
 import QV.Model.Front
 /-!
 # C01 – Boolean expressions mean what the Python source means
@@ -207,6 +208,82 @@ theorem bitwise_ops (ρ : Env) (a b : BExp) :
     (opAnd a b).eval ρ = (a.eval ρ && b.eval ρ) ∧ (opOr a b).eval ρ = (a.eval ρ || b.eval ρ) ∧
     (opXor a b).eval ρ = Bool.xor (a.eval ρ) (b.eval ρ) := by
   simp [opAnd, opOr, opXor, BExp.eval, evalAnd, evalOr, evalXor]
+
+/-! ## the multiplier and `%` -/
+
+/-- the schoolbook loop of `QintImp.mul` (rows = bits of the left operand, each row a ripple of full
+adders into `product` at offset `i`, final carry stored at `i + m`): the exact product on `n + m`
+bits, for operands of any two widths -/
+theorem schoolbook_spec (ρ : Env) (l r : List BExp) :
+    val ρ (schoolbook l r) = val ρ l * val ρ r ∧ (schoolbook l r).length = l.length + r.length :=
+  val_schoolbook ρ l r
+
+/-- `QintImp.mul` with every product through the schoolbook loop (the repaired code; `Quirks.none`),
+for all operand widths, all `is_const` outcomes `cl`, `cr` and all environments: the result type has
+`t = (qMul …).1` bits (`__mul_sizing` of the two operand widths after the constant / width fills),
+the bits are the `n + m` product bits cropped / filled to `t`, and their value is
+`(val l * val r) mod 2^t`.  When the operands have the widths of their types, `t` is
+`__mul_sizing(max, max)` – the rule `mul_sizing(2·max)` of the reference semantics. -/
+theorem mul_spec (ρ : Env) (cl cr : Bool) (nl nr : Nat) (l r : List BExp) :
+    val ρ (qMul Quirks.none cl cr nl nr l r).2
+      = (val ρ l * val ρ r) % 2 ^ (qMul Quirks.none cl cr nl nr l r).1 ∧
+    (qMul Quirks.none cl cr nl nr l r).2.length = (qMul Quirks.none cl cr nl nr l r).1 ∧
+    (l.length = nl → r.length = nr →
+      (qMul Quirks.none cl cr nl nr l r).1 = mulSizing (max nl nr) (max nl nr)) := by
+  rw [qMul_none]
+  simp only []
+  obtain ⟨hl, hr⟩ := val_mulOperands ρ cl cr nl nr l r
+  refine ⟨?_, crop_fill_length _ _, ?_⟩
+  · rw [val_crop_fill, (val_schoolbook ρ _ _).1, hl, hr]
+  · intro h1 h2
+    have e1 : (if cl then fill nr l else l).length = if cl then max nr nl else nl := by
+      cases cl <;> simp [fill_length, h1]
+    have e2 : (if cr then fill nl r else r).length = if cr then max nl nr else nr := by
+      cases cr <;> simp [fill_length, h2]
+    rw [e1, e2]
+    congr 1 <;> cases cl <;> cases cr <;> simp only [Bool.false_eq_true, if_false, if_true] <;>
+      (repeat' split) <;> omega
+
+/-- for the model of the code with the `mul_even_const` shortcut still present, `mul` is the
+schoolbook `mul` whenever neither operand is a constant -/
+theorem mul_partial (q : Quirks) (nl nr : Nat) (l r : List BExp) :
+    qMul q false false nl nr l r = qMul Quirks.none false false nl nr l r := by
+  simp [qMul, Quirks.none]
+
+example : (qMul Quirks.none false true 2 2 [.sym "a.0", .sym "a.1"] (qintConst 2 2)).1 = 4 := by decide
+
+/-- `QintImp.mod` (`x & (y - 1)`, `y - 1` by `QintImp.sub` on the class of `nr ≥ 1` bits) for a right
+operand whose value is a power of two `2^k` (the literal case the repaired front end accepts):
+`val x mod 2^k`, operands of any widths -/
+theorem mod_spec (ρ : Env) (nr : Nat) (l r : List BExp) (k : Nat) (hn : 0 < nr)
+    (hr : val ρ r = 2 ^ k) :
+    val ρ (qMod Quirks.none nr l r) = val ρ l % 2 ^ k ∧
+    (qMod Quirks.none nr l r).length = max l.length (max nr r.length) := by
+  unfold qMod
+  obtain ⟨hc, hcl⟩ := qintConst_spec ρ nr 1 hn
+  obtain ⟨hs, hsl⟩ := sub_spec ρ nr r (qintConst nr 1)
+  have h2 : 2 ≤ 2 ^ nr := by
+    have := Nat.pow_le_pow_right (by decide : 0 < 2) hn; simpa using this
+  rw [Nat.mod_eq_of_lt (by omega)] at hc
+  rw [hcl] at hs hsl
+  constructor
+  · apply val_and_mask
+    rw [hs, hc, hr]
+    have hlt : 2 ^ k < 2 ^ (max nr (max r.length nr)) := by
+      have h1 := val_lt ρ r
+      have h3 : 2 ^ r.length ≤ 2 ^ (max nr (max r.length nr)) :=
+        Nat.pow_le_pow_right (by decide) (by omega)
+      omega
+    have hk : 0 < 2 ^ k := Nat.pow_pos (by decide)
+    have e : 2 ^ k + 2 ^ (max nr (max r.length nr)) - 1 = (2 ^ k - 1) + 2 ^ (max nr (max r.length nr)) := by
+      omega
+    rw [e, Nat.add_mod_right, Nat.mod_eq_of_lt (by omega)]
+    omega
+  · rw [(bitwise_spec ρ opAnd (· && ·) (fun a b => (bitwise_ops ρ a b).1) _ _).2, hsl]
+    omega
+
+example : ∃ (ρ : Env) (nr : Nat) (r : List BExp) (k : Nat), 0 < nr ∧ val ρ r = 2 ^ k :=
+  ⟨fun _ => false, 4, qintConst 4 4, 2, by decide, by decide⟩
 
 /-! ## the comparator table of `translate_expression` (generated from the source) -/
 
